@@ -74,6 +74,10 @@ class AddonPersistence(Addon, metaclass=abc.ABCMeta):
         """
         if not self.persistent:
             return
+        if not self.is_initialized():
+            # nothing to save yet; do not touch the saved state which was not restored yet
+            # (a conditional event resolving to "no event" could arrive that early)
+            return
         persistent_dict = self.circuit.persistent_dict
         # during the finalization the persistent flag gets disabled if there is no storage
         assert persistent_dict is not None, f"{self}: circuit not finalized"
